@@ -10,11 +10,7 @@ import (
 	"database/sql"
 	"encoding/json"
 	"fmt"
-	"go/ast"
-	"go/parser"
-	"go/token"
 	"os"
-	"path/filepath"
 	"sort"
 	"strings"
 	"time"
@@ -422,125 +418,35 @@ func gFin(f Fin) string {
 	return lib.App("FFoc", lib.ListOf(f.Inline, gCond))
 }
 func term(in Input, o Obs) string {
-	return lib.App("mk_case", lib.Bool(keep), lib.ListOf(in.Tbl, gRec), lib.Z(in.Now), lib.ListOf(in.Chain, gCel), gFin(in.Fin),
+	return lib.App("mk_case", lib.ListOf(in.Tbl, gRec), lib.Z(in.Now), lib.ListOf(in.Chain, gCel), gFin(in.Fin),
 		gRec(o.Ret), lib.Z(o.RA), lib.Bool(o.Err != ""), lib.Z(o.Writes), lib.ListOf(o.Tbl, gRec),
 		lib.Bool(o.Setup != ""))
 }
 
-// ---- a fact read from the source on every run: does Statement.clone copy attrs and assigns? ----
+// ---- chain shapes ------------------------------------------------------------------------------
 
-// cloneKeeps parses <repo>/statement.go and reports whether func (stmt *Statement) clone() carries
-// BOTH attrs and assigns over (as keys of the &Statement{...} literal or as assignments
-// newStmt.attrs = ... / newStmt.assigns = ...).  It is the model's parameter [keep]; the tree as it
-// is answers false.  Anything else than "both" counts as false, so a half-way change shows up as a
-// model disagreement.
-func cloneKeeps(repo string) bool {
-	fset := token.NewFileSet()
-	f, err := parser.ParseFile(fset, filepath.Join(repo, "statement.go"), nil, 0)
-	if err != nil {
-		return false
-	}
-	got := map[string]bool{}
-	for _, d := range f.Decls {
-		fd, ok := d.(*ast.FuncDecl)
-		if !ok || fd.Name.Name != "clone" || fd.Recv == nil || fd.Body == nil {
-			continue
-		}
-		ast.Inspect(fd.Body, func(n ast.Node) bool {
-			switch x := n.(type) {
-			case *ast.KeyValueExpr:
-				if id, ok := x.Key.(*ast.Ident); ok {
-					if sel, ok := x.Value.(*ast.SelectorExpr); ok && sel.Sel.Name == id.Name {
-						got[id.Name] = true
-					}
-				}
-			case *ast.AssignStmt:
-				if len(x.Lhs) == 1 && len(x.Rhs) == 1 {
-					l, ok1 := x.Lhs[0].(*ast.SelectorExpr)
-					r, ok2 := x.Rhs[0].(*ast.SelectorExpr)
-					if ok1 && ok2 && l.Sel.Name == r.Sel.Name {
-						got[l.Sel.Name] = true
-					}
-				}
-			}
-			return true
-		})
-	}
-	return got["attrs"] && got["assigns"]
-}
-
-var keep bool // set in main from the source of the tree under test
-
-// ---- the handle semantics needed for the known-finding signature (input only) --------------
-
-// dropsAttrs reports whether, on the current tree, an Attrs/Assign of the chain is lost because a
-// later Session/WithContext makes the next getInstance clone the statement (Statement.clone copies
-// neither attrs nor assigns).  Mirrors C16_Model.run_chain with keep = false.
-func dropsAttrs(in Input) bool {
-	if keep || (in.Fin.Kind != "foi" && in.Fin.Kind != "foc") {
-		return false
-	}
-	type h struct {
-		clone          int
-		attrs, assigns int // index of the chain element that set them, -1 = none
-	}
-	cur := h{1, -1, -1}
-	inst := func(x h) h {
-		switch x.clone {
-		case 0:
-			return x
-		case 1:
-			return h{0, -1, -1}
-		}
-		return h{0, -1, -1}
-	}
-	wantA, wantS := -1, -1
-	for i, c := range in.Chain {
+// sessionAfterAttrs reports whether a Session/WithContext follows a non-empty Attrs/Assign in the
+// chain: the shape that lost the Attrs/Assign before /repo commit 2b43abc (known finding
+// clone-drops-attrs, now fixed).  Such cases are generated on purpose (stream session-after-attrs).
+func sessionAfterAttrs(in Input) bool {
+	seen := false
+	for _, c := range in.Chain {
 		switch c.Kind {
-		case "where":
-			cur = inst(cur)
-		case "attrs":
-			cur = inst(cur)
-			cur.attrs = i
+		case "attrs", "assign":
 			if len(c.Args) > 0 {
-				wantA = i
-			} else {
-				wantA = -1
+				seen = true
 			}
-		case "assign":
-			cur = inst(cur)
-			cur.assigns = i
-			if len(c.Args) > 0 {
-				wantS = i
-			} else {
-				wantS = -1
+		case "session", "ctx":
+			if seen {
+				return true
 			}
-		case "session":
-			cur.clone = 2
-		case "ctx":
-			cur = h{2, -1, -1}
 		}
 	}
-	eff := cur
-	if in.Fin.Kind == "foi" {
-		eff = inst(cur)
-	}
-	ga, gs := eff.attrs, eff.assigns
-	if ga >= 0 && len(in.Chain[ga].Args) == 0 {
-		ga = -1
-	}
-	if gs >= 0 && len(in.Chain[gs].Args) == 0 {
-		gs = -1
-	}
-	return ga != wantA || gs != wantS
+	return false
 }
 
-func sig(in Input) string {
-	if dropsAttrs(in) {
-		return "clone-drops-attrs"
-	}
-	return ""
-}
+// sig: no known finding is open for C16.
+func sig(in Input) string { return "" }
 
 // ---- generation ------------------------------------------------------------------------------
 
@@ -726,8 +632,8 @@ func sessionEl(r *lib.Rng) Cel {
 	return Cel{Kind: "ctx"}
 }
 
-// genStep draws one step. known=true asks for the known-finding shape (a Session/WithContext after
-// Attrs/Assign); otherwise session elements are only placed where no Attrs/Assign precedes them.
+// genStep draws one step. known=true forces a Session/WithContext after an Attrs/Assign (the shape
+// of the fixed finding clone-drops-attrs); otherwise session elements go to any chain position.
 func genStep(r *lib.Rng, state []Rec, now int64, edge, known bool) Input {
 	in := Input{Tbl: append([]Rec(nil), state...), Now: now, NoReturn: r.Chance(1, 4)}
 	k := r.Intn(100)
@@ -809,7 +715,7 @@ func genStep(r *lib.Rng, state []Rec, now int64, edge, known bool) Input {
 		if known {
 			pos = firstAttr + 1 + r.Intn(len(in.Chain)-firstAttr)
 		} else {
-			pos = r.Intn(firstAttr + 1)
+			pos = r.Intn(len(in.Chain) + 1)
 		}
 		el := sessionEl(r)
 		in.Chain = append(in.Chain[:pos], append([]Cel{el}, in.Chain[pos:]...)...)
@@ -892,15 +798,9 @@ func nontrivial(in Input, o Obs) bool {
 
 func main() {
 	a := lib.ParseArgs()
-	repo := os.Getenv("VERIF_REPO")
-	if repo == "" {
-		repo = "/repo"
-	}
-	keep = cloneKeeps(repo)
 	envs := map[bool]*env{false: openEnv(false), true: openEnv(true)}
 	out := lib.NewOut(a.Out, "C16")
 	out.PerFile = 250
-	out.Extra["statement_clone_copies_attrs_and_assigns"] = keep
 
 	add := func(kind string, in Input) Obs {
 		o := run(envs[in.NoReturn], in)
@@ -1001,14 +901,14 @@ func main() {
 				}
 			}
 			edge := r.Chance(15, 100)
-			known := r.Chance(6, 100)
+			known := r.Chance(15, 100) // force a Session/WithContext after an Attrs/Assign
 			in := genStep(r, state, int64(10*(s+2)), edge, known)
 			kind := "main"
 			if edge {
 				kind = "edge"
 			}
-			if sig(in) != "" {
-				kind = "known-shape"
+			if sessionAfterAttrs(in) {
+				kind = "session-after-attrs"
 			}
 			o := add(kind, in)
 			n++
@@ -1017,6 +917,6 @@ func main() {
 			}
 		}
 	}
-	out.Extra["rule"] = "a case is ONE step on a table of 0..n rows over keys 1..4 (+ rowid-assigned keys): Save(v) | Create+OnConflict{DoNothing, DoUpdates(subset of name,age,email,updated_at,deleted_at), UpdateAll}(v) | FirstOrInit | FirstOrCreate, preceded by a chain of Where(struct|map|raw 'age > ?') / Attrs / Assign (struct, map in column or field spelling, key-value; 1-2 arguments) in any order with Session(&Session{}) / WithContext inserted at chain positions; steps are chained into histories of 6..12 steps on the evolving table with soft/hard deletions in between; v is fresh (key 0 or 1..4) or a previously stored row edited. Main stream: no Session/WithContext after an Attrs/Assign (the known finding); stream known-shape has them. Domain: at most one Attrs and one Assign per chain, key-value form alone, two-argument forms in column spelling, Attrs/Assign keys among name/age/email, type-correct values, one inline condition. distinct = distinct (finisher, rule+cols, collision kind, chain form, inline form, RowsAffected, writes, error, table size); non-trivial = the value's key collides with a stored row (Save/upsert) or the chain has a condition and a non-empty Attrs/Assign on a non-empty table (FirstOr*)."
+	out.Extra["rule"] = "a case is ONE step on a table of 0..n rows over keys 1..4 (+ rowid-assigned keys): Save(v) | Create+OnConflict{DoNothing, DoUpdates(subset of name,age,email,updated_at,deleted_at), UpdateAll}(v) | FirstOrInit | FirstOrCreate, preceded by a chain of Where(struct|map|raw 'age > ?') / Attrs / Assign (struct, map in column or field spelling, key-value; 1-2 arguments) in any order with Session(&Session{}) / WithContext inserted at chain positions; steps are chained into histories of 6..12 steps on the evolving table with soft/hard deletions in between; v is fresh (key 0 or 1..4) or a previously stored row edited. Session/WithContext are inserted at EVERY chain position, also after Attrs/Assign (stream session-after-attrs forces that shape, the fixed finding clone-drops-attrs). Domain: at most one Attrs and one Assign per chain, key-value form alone, two-argument forms in column spelling, Attrs/Assign keys among name/age/email, type-correct values, one inline condition. distinct = distinct (finisher, rule+cols, collision kind, chain form, inline form, RowsAffected, writes, error, table size); non-trivial = the value's key collides with a stored row (Save/upsert) or the chain has a condition and a non-empty Attrs/Assign on a non-empty table (FirstOr*)."
 	lib.Must(out.Flush())
 }
